@@ -203,7 +203,7 @@ Tuning options:
         8192.
 
     --send-bytes=INT
-        Number of bytes to send to socket.send(). Default is 18000.
+        Number of bytes to send to socket.send(). Default is 1.
         Multiples of 9000 should avoid partly-filled TCP packets.
 
     --outbuf-overflow=INT
